@@ -14,7 +14,7 @@ From Coq Require Import ZArith List Bool Lia Sorting.Sorted.
 From Low Require Import Lib.MachInt Lib.Bits Lib.Lex Lib.Bytes Spec.Bmtree Spec.IndexSpec Spec.ContractSpec
   Model.BmtreePath Model.BmtreeIndex
   Proofs.BmtreeRankSpec Proofs.ShiftMultiProofs Proofs.BmtreeIndexProofs Proofs.BmtreeContractProofs
-  Proofs.BmtreeDomainProofs.
+  Proofs.BmtreeDomainProofs Proofs.BmtreeSubtreeProofs.
 Import ListNotations.
 Open Scope Z_scope.
 
@@ -166,6 +166,37 @@ Theorem C03_checker_strict : forall T q (dbg : bool), 1 <= T < 2 ^ 31 ->
 Proof. intros T q dbg HT Hq. exact (checker_strict T q HT Hq dbg). Qed.
 Print Assumptions C03_checker_strict.
 
+(** * widening: the index of a node and the indexes of its descendants (what a user who walks the tree
+    with PathToIndexLoose relies on) *)
+
+(** the subtree below q is a tree of height h - |q| with level mask T >> |q|: the index of a descendant
+    q ++ r is the index of q plus the pre-order rank of r inside that subtree *)
+Theorem C03_descendant : forall T h q r, 1 <= T < 2 ^ 31 -> Height T = Z.of_nat h ->
+  (length (q ++ r) <= h)%nat ->
+  PathToIndexLoose T (enc h (q ++ r)) =
+  Some (pre_rank T h q + pre_rank (T / 2 ^ Z.of_nat (length q)) (h - length q) r,
+        Z.b2z (stored (T / 2 ^ Z.of_nat (length q)) r)).
+Proof. exact PathToIndexLoose_descendant. Qed.
+Print Assumptions C03_descendant.
+
+(** ... so the subtree occupies the contiguous index range [idx q, idx q + (T >> |q|)) *)
+Theorem C03_subtree_range : forall T h q r, 1 <= T < 2 ^ 31 -> Height T = Z.of_nat h ->
+  (length (q ++ r) <= h)%nat ->
+  0 <= pre_rank (T / 2 ^ Z.of_nat (length q)) (h - length q) r <= T / 2 ^ Z.of_nat (length q) /\
+  (stored (T / 2 ^ Z.of_nat (length q)) r = true ->
+   pre_rank (T / 2 ^ Z.of_nat (length q)) (h - length q) r < T / 2 ^ Z.of_nat (length q)).
+Proof. exact subtree_range. Qed.
+Print Assumptions C03_subtree_range.
+
+(** the left child follows its parent immediately, the right child follows the whole left subtree *)
+Theorem C03_child : forall T h q (b : bool) i s, 1 <= T < 2 ^ 31 -> Height T = Z.of_nat h ->
+  (length q < h)%nat -> PathToIndexLoose T (enc h q) = Some (i, s) ->
+  PathToIndexLoose T (enc h (q ++ [b])) =
+  Some (i + s + (if b then T / 2 ^ (Z.of_nat (length q) + 1) else 0),
+        Z.b2z (Z.testbit T (Z.of_nat (length q) + 1))).
+Proof. exact PathToIndexLoose_child. Qed.
+Print Assumptions C03_child.
+
 (** * widening: the contracts of the debug build on RAW arguments (any int32 level mask, any uint64 word) *)
 
 (** the naive decoder of Spec/ContractSpec.v recognises exactly the path words *)
@@ -274,4 +305,13 @@ Example C03_raw_nonvacuous :
   raw_strict_expect 90 (enc 6 [true; false]) = ExpPanic /\ PathToIndex_debug 90 (enc 6 [true; false]) = None /\
   raw_loose_expect 0xf 0x800000000 = ExpAny /\ gap_word 0x800000000 = true /\
   contracts_PathToIndexLoose 0xf 0x800000000 = true.
+Proof. repeat apply conj; vm_compute; reflexivity. Qed.
+
+(** children in the partial tree T = 0b1011010: node 10 has index 46 and is not stored; its children 100 / 101 *)
+Example C03_child_nonvacuous :
+  PathToIndexLoose 90 (enc 6 [true; false]) = Some (46, 0) /\
+  PathToIndexLoose 90 (enc 6 ([true; false] ++ [false])) = Some (46 + 0 + 0, 1) /\
+  PathToIndexLoose 90 (enc 6 ([true; false] ++ [true])) = Some (46 + 0 + 90 / 2 ^ 3, 1) /\
+  pre_rank 90 6 [true; false] + pre_rank (90 / 2 ^ 2) 4 [true; true] = 63 /\
+  PathToIndexLoose 90 (enc 6 ([true; false] ++ [true; true])) = Some (63, 1).
 Proof. repeat apply conj; vm_compute; reflexivity. Qed.
